@@ -4,5 +4,6 @@ CONSTANTS
   Root = "r"
   Depths = {0, 2, 3, 4}
   MaxImports = 3
+  AliasSet = {""}
   FaultKinds = {}
 CHECK_DEADLOCK FALSE
